@@ -16,7 +16,8 @@ TECHNIQUE = "explicit-state bounded-exhaustive exploration of real descriptor-dr
 RULE = ("VMDK descriptors with 1-3 extents: every kind in {FLAT, VMFS, SPARSE, VMFSSPARSE, SESPARSE} x size in "
         "{16, 24, 40, 4104} sectors x access {RW, RDONLY} x file name {plain, spaces, inner quote, non-ASCII, emoji} (full "
         "product for <= 2 extents, every kind triple for 3); VMDK([handles]) with 1-3 sparse/raw handles; Parallels "
-        "descriptors with 1-3 storages {Plain, Compressed} in every XML order; flat files carry trailing slack beyond the "
+        "file names with 14 characters special to str.splitlines / str.strip; flat extents whose data begins with a complete "
+        "hosted / COWD / SE-sparse header (nested image); descriptors with 1-3 storages {Plain, Compressed} in every XML order; flat files carry trailing slack beyond the "
         "declared size. Requests: every (sector, count) whose ends lie on an extent boundary +-1 or the disk end via "
         "read_sectors and byte reads, whole-disk read, size and sector_count. non-trivial = request crossing an extent "
         "boundary")
@@ -33,6 +34,10 @@ EXPECT_OUTCOMES = ["vmdk-descriptor", "vmdk-handles", "hdd-storages"]
 KINDS = ["FLAT", "VMFS", "SPARSE", "VMFSSPARSE", "SESPARSE"]
 SIZES = [16, 24, 40, 4104]
 NAMES = ["plain", "with space", 'in"ner', "ünï-cödé", "emoji-\U0001F4BE", "size=small & id#4"]
+# characters that are ordinary in POSIX file names but special to some text routine (str.splitlines, str.strip, ...)
+ODD_NAMES = ["my old disk" + ch + "copy" for ch in ("\x0b", "\x0c", "\x1c", "\x1d", "\x1e", "\x85", "\u2028", "\u2029",
+                                                     "\xa0", "\u3000", "\t", "\ufeff")] + ["tail\u2028", "\x0chead"]
+NESTED = ["hosted", "cowd", "sesparse"]
 
 
 def shards(tier):
@@ -56,6 +61,17 @@ def run_shard(shard, ctx):
     if kind == "vmdk1":
         for k, s, a, n in itertools.product(KINDS, SIZES, ("RW", "RDONLY"), NAMES):
             run_case({"kind": "vmdk", "extents": [[k, s, a, n]]}, ctx)
+        # file names with characters some text routine treats as a line boundary or as blank, in first and second position
+        for n, name in enumerate(ODD_NAMES):
+            for k in ("FLAT", "SPARSE", "SESPARSE"):
+                run_case({"kind": "vmdk", "extents": [[k, 16, "RW", name]]}, ctx)
+                run_case({"kind": "vmdk", "extents": [["FLAT", 24, "RW", "first"], [k, 16, "RW", name]]}, ctx)
+        # flat extents whose guest data begins with the magic / a complete header of a sparse extent (a nested image)
+        for nested, k, pos in itertools.product(NESTED, ("FLAT", "VMFS"), (0, 1)):
+            ext = [[k, 4104, "RW", "nest", nested]]
+            if pos:
+                ext = [["SPARSE", 24, "RW", "first"]] + ext
+            run_case({"kind": "vmdk", "extents": ext + [["FLAT", 16, "RW", "last"]]}, ctx)
     elif kind == "vmdk2":
         i, k = shard["slice"]
         combos = itertools.product(itertools.product(KINDS, SIZES), repeat=2)
@@ -85,10 +101,18 @@ def run_shard(shard, ctx):
                               "sizes": [SIZES[(j + r) % 3] + j for j in range(r)]}, ctx)
 
 
-def _extent_image(kind, sectors, layer, rot=0):
+def _extent_image(kind, sectors, layer, rot=0, nested=None):
     """-> (Image, model) for one extent holding `sectors` sectors of guest data."""
     from mc.builders import vmdk as B
 
+    if nested:
+        inner, _ = _extent_image({"hosted": "SPARSE", "cowd": "VMFSSPARSE", "sesparse": "SESPARSE"}[nested], 64, 9, 1)
+        head = inner.tobytes()[: sectors * 512]
+        data = head + pattern.span(layer, len(head), sectors * 512 - len(head))
+        img = B.Image("flat")
+        img.put(0, data, meta=False)
+        img.put_pattern(sectors * 512, 9 * 512, pattern.SLACK, sectors * 512)
+        return img, RawDisk(data)
     if kind in ("FLAT", "VMFS", "raw"):
         return B.build_flat(sectors, layer, slack_sectors=9), B.model_flat(sectors, layer)
     grain = 8
@@ -172,8 +196,8 @@ def _case_vmdk(case, ctx, d, buf):
     parts = []
     bounds = []
     pos = 0
-    for xi, (kind, sectors, access, name) in enumerate(case["extents"]):
-        img, m = _extent_image(kind, sectors, xi + 1, xi)
+    for xi, (kind, sectors, access, name, *rest) in enumerate(case["extents"]):
+        img, m = _extent_image(kind, sectors, xi + 1, xi, rest[0] if rest else None)
         fn = f"{name}-{'flat' if kind in ('FLAT', 'VMFS') else 's%03d' % (xi + 1)}.vmdk"
         img.write_to(os.path.join(d, fn))
         lines.append((access, sectors, kind, fn, 0 if kind == "FLAT" else None))
